@@ -223,6 +223,24 @@ func checkC18Expr(c c18ExprCase) *evid.Fail {
 			return evid.F("missing-variable:error-does-not-name-it", "%q: the error for the missing variable %q is %q", c.Text, missing, err.Error())
 		}
 	}
+	if len(occ) > 0 {
+		// every variable present but holding Null: present is present, whatever the value
+		vc := variables.NewVariableCollection()
+		for _, o := range occ {
+			vc.Add(variables.NewVariable(o, variants.EmptyVariant()))
+		}
+		fc := functions.NewFunctionCollection()
+		for _, f := range funcs {
+			fc.Add(tupFunction(f))
+		}
+		var nerr error
+		if g := guard(func() { _, nerr = calc2.EvaluateUsingVariablesAndFunctions(vc, fc) }); g != nil {
+			return g
+		}
+		if nerr != nil && strings.Contains(nerr.Error(), "not found") {
+			return evid.F("present-variable-reported-missing", "%q with every variable present and Null: %v", c.Text, nerr)
+		}
+	}
 	if len(funcs) > 0 {
 		missing := funcs[0]
 		vc := variables.NewVariableCollection()
